@@ -799,11 +799,15 @@ def run(ctx) -> dict:
     _state = _r19_5(ctx, counts, lambda f: f.module.name in (
         'elementpath.decoder', 'elementpath.schema_proxy', 'elementpath.xpath_nodes',
         'elementpath.xpath_context'), 0)
+    from .c05_purity import r05_10 as _r05_10
+    _memo = _r05_10(ctx, counts)
+    _memo.title = ('ARGUMENT-KEYED-MEMO (R05.10 shared: prototypes cached under a type name '
+                   'serve another schema)')
     return {
         'results': [r1, r2, r20_3(ctx, counts), r20_4(ctx, counts), r20_5(ctx, counts),
                     r20_6(ctx, counts), r20_7(ctx, counts), r20_8(ctx, counts),
                     r20_9(ctx, counts), r20_10(ctx, counts), r20_11(ctx, counts),
-                    _state], 'counts': counts,
+                    _memo, _state], 'counts': counts,
         'explanation':
             'Only the table-shaped necessary condition of "the typed value is an instance of the '
             'datatype class of its declared type" is decided: the prototype table that '
